@@ -419,6 +419,8 @@ def seat_check(prop, tier, seed, work, replay):
         mcs.append(generic_mc(work, "SeatJoinConc.tla", "conc", dict(Procs="{1,2,3}", MaxSeats="2", UseMutex="TRUE"),
                               invariants=["MutualExclusion", "EpisodeOK"]))
         proof = tlaps_proof(work, "SeatJoinProof.tla")
+    if prop == "C17":
+        proof = tlaps_proof(work, "SeatNextProof.tla")
     mc_cmp = generic_mc(work, "MCSeat.tla", "mcseatcmp", dict(MaxSeats="3", Players="{1,2,3,4}", Props="{}", Ignore="{}"), view="CmpView")
     for m in mcs:
         if not m["ok"]:
